@@ -85,3 +85,52 @@ def run_call_variant(gvfs=None, workdir=None, **over):
     finally:
         if own:
             shutil.rmtree(workdir, ignore_errors=True)
+
+
+def run_call_novel_orf(**over):
+    from moPepGen import cli
+    logging.disable(logging.CRITICAL)
+    workdir = tempfile.mkdtemp(prefix='pyvc_no_')
+    try:
+        kw = dict(command='callNovelORF', output_path=Path(workdir) / 'novel.fasta',
+                  output_orf=Path(workdir) / 'orf.fasta', min_tx_length=21, orf_assignment='max',
+                  cleavage_exception='trypsin_exception')
+        kw.update(over)
+        args = base_args(**kw)
+        cli.call_novel_orf_peptide(args)
+        return read_fasta(Path(workdir) / 'novel.fasta'), read_fasta(Path(workdir) / 'orf.fasta')
+    finally:
+        shutil.rmtree(workdir, ignore_errors=True)
+
+
+def run_call_alt_translation(**over):
+    from moPepGen import cli
+    logging.disable(logging.CRITICAL)
+    workdir = tempfile.mkdtemp(prefix='pyvc_at_')
+    try:
+        kw = dict(command='callAltTranslation', output_path=Path(workdir) / 'alt.fasta',
+                  cleavage_exception='trypsin_exception')
+        kw.update(over)
+        args = base_args(**kw)
+        cli.call_alt_translation(args)
+        return read_fasta(Path(workdir) / 'alt.fasta')
+    finally:
+        shutil.rmtree(workdir, ignore_errors=True)
+
+
+_REF = {}
+
+
+def demo_reference():
+    """(anno, genome, proteome) of the demo data, parsed once with the real loaders"""
+    if 'ref' not in _REF:
+        from moPepGen import gtf, dna, aa
+        anno = gtf.GenomicAnnotationOnDisk()
+        anno.generate_index(DATA / 'annotation.gtf')
+        genome = dna.DNASeqDict()
+        genome.dump_fasta(DATA / 'genome.fasta')
+        proteome = aa.AminoAcidSeqDict()
+        proteome.dump_fasta(DATA / 'translate.fasta')
+        anno.check_protein_coding(proteome, False)
+        _REF['ref'] = (anno, genome, proteome)
+    return _REF['ref']
